@@ -373,3 +373,15 @@ def run(rep: Report, tier: str):
     rep.assume("Pickled.dumps() is the byte-exact re-serialisation of what was parsed (C06.concat) and check_safety analyses the object it is given (C10/C04)")
     check_loader(repo, rep)
     check_arming(repo, rep)
+    # "in every non-returning case nothing named in the pickle has been resolved or called": before the real
+    # load only the parser and the analyses run -- C01's who-may-call analysis, re-keyed
+    from . import c01 as _c01
+
+    tmp = Report("C01", tier)
+    _c01.run(tmp, tier)
+    rep.rule("C02.analysis-inert", "parse and safety analysis (everything that runs before the verdict) cannot import / resolve / call anything (C01.reach)", 100)
+    for f in tmp.findings:
+        rep.bad("C02.analysis-inert", f.construct, f.detail, "reached before the verdict is known: " + f.message, f.file, f.line, path=f.path)
+    for i in tmp.instances:
+        if i.ok and i.rule == "C01.reach":
+            rep.ok("C02.analysis-inert", i.construct, i.what, i.where)
